@@ -343,7 +343,7 @@ func report(cc *checkCfg, tier string, seed int, res *results, ran []*harnessCfg
 		totalDecisions += hr.Decisions
 		pp := perPkg[h.Pkg]
 		for _, v := range sortedViolations(hr) {
-			pp.cases = append(pp.cases, replayCase{Harness: h.Name, Vector: v.Vector, Expect: v.Expect, Key: v.Key, Race: v.Kind == "race", Sched: h.Delays > 0 || h.Preempt > 0, MaxAlloc: h.MaxAlloc})
+			pp.cases = append(pp.cases, replayCase{Harness: h.Name, Vector: v.Vector, Expect: v.Expect, Key: v.Key, Race: v.Kind == "race", Sched: h.Delays > 0 || h.Preempt > 0 || h.NondetMaps > 0, MaxAlloc: h.MaxAlloc})
 			pp.names[h.Name] = true
 			if v.Kind == "race" {
 				pp.raceAny = true
@@ -427,7 +427,7 @@ func report(cc *checkCfg, tier string, seed int, res *results, ran []*harnessCfg
 				continue
 			}
 			if strings.HasPrefix(st, "UNCONFIRMED") {
-				if hc := cfgOf[h.Name]; v.Kind == "race" || v.Kind == "deadlock" || (hc != nil && (hc.Delays > 0 || hc.Preempt > 0)) {
+				if hc := cfgOf[h.Name]; v.Kind == "race" || v.Kind == "deadlock" || (hc != nil && (hc.Delays > 0 || hc.Preempt > 0 || hc.NondetMaps > 0)) {
 					lines = append(lines, fmt.Sprintf("UNCONFIRMED harness=%s key=%q (%s) native: %s", h.Name, v.Key, v.Msg, st))
 					continue
 				}
